@@ -628,7 +628,7 @@ func (l *Linter) check(
 		}
 	}
 
-	all = l.filterErrors(all, cfg.PathConfigs(path))
+	all = l.filterErrors(all, cfg.PathConfigs(l.pathFromProjectRoot(path, project)))
 
 	for _, err := range all {
 		err.Filepath = path // Populate filename in the error
@@ -642,6 +642,27 @@ func (l *Linter) check(
 	}
 
 	return all, nil
+}
+
+// pathFromProjectRoot returns the given file path relative to the root directory of the project.
+// Glob patterns in "paths" of actionlint.yaml are matched against this path so that they do not
+// depend on the current working directory or on how the file path was specified.
+func (l *Linter) pathFromProjectRoot(path string, project *Project) string {
+	if project == nil {
+		return path
+	}
+	abs := path
+	if !filepath.IsAbs(abs) {
+		if l.cwd != "" {
+			abs = filepath.Join(l.cwd, abs) // path was made relative to l.cwd by the caller
+		} else {
+			abs = absPath(abs)
+		}
+	}
+	if r, err := filepath.Rel(project.RootDir(), abs); err == nil {
+		return r
+	}
+	return path
 }
 
 func (l *Linter) filterErrors(errs []*Error, cfgs []PathConfig) []*Error {
